@@ -306,7 +306,9 @@ fn pick_terms(rng: &mut Rng, text: &str, odd: bool) -> (Vec<String>, Vec<Vec<Str
 
 fn main() {
   let args = parse_args();
-  let mut rng = Rng::new(args.seed);
+  // slv::Rng::new(s) and Rng::new(s + 1) produce the same stream shifted by one draw; scramble the
+  // seed so that different seeds give unrelated runs
+  let mut rng = Rng::new((args.seed ^ 0x5DEECE66D).wrapping_mul(0xD6E8FEB86659FD93).rotate_left(29));
   let mut dist: BTreeMap<String, u64> = BTreeMap::new();
   let mut cases: Vec<Case> = Vec::new();
   let n_direct = args.n;
